@@ -410,8 +410,8 @@ fn gen_assign(rng: &mut Rng, k: &Knobs, m: &Model, fault: bool) -> Option<Op> {
 fn gen_idx_assign(rng: &mut Rng, k: &Knobs, m: &Model, fault: bool) -> Option<Op> {
   let (name, ft) = pick_target(rng, k, m, fault, |b| b.v.is_matrix())?;
   let (ek, r, c) = match m.store.get(&name).map(|b| &b.v) { Some(SV::Mat(ek, r, c, _)) => (ek.clone(), *r, *c), _ => ("f64".to_string(), 1, 3) };
-  let fk = if fault && !ft { rng.below(3) } else { 99 };
-  let vector_src = rng.chance(1, 4) && fk != 1 && literal_matrix_kind(&ek);
+  let fk = if fault && !ft { rng.below(4) } else { 99 };
+  let vector_src = (rng.chance(1, 4) || fk == 3) && fk != 1 && literal_matrix_kind(&ek);
   let sub = gen_sub(rng, r, c, fk == 0, vector_src);
   // index held in a variable
   let sub = match (&sub, rng.chance(1, 6)) {
@@ -431,6 +431,9 @@ fn gen_idx_assign(rng: &mut Rng, k: &Knobs, m: &Model, fault: bool) -> Option<Op
     failing_source(rng, k, m)
   } else if vector_src && matches!(super::model::resolve(&sub, r, c, &m.store), Ok(ref p) if !p.is_empty()) {
     let n = super::model::resolve(&sub, r, c, &m.store).unwrap().len();
+    // fault: a source with fewer elements than the index list addresses (fails after the first
+    // elements if nothing checks the lengths first)
+    let n = if fault && n >= 2 && rng.chance(1, 2) { 1 + rng.usize(n - 1) } else { n };
     Expr::Lit(gen_vec_rand(rng, &ek, n))
   } else {
     scalar_source(rng, m, &ek)
